@@ -204,7 +204,7 @@ pub fn run_c02(ctx: &Ctx) -> ! {
 // C03
 // ---------------------------------------------------------------------------------------------
 
-fn eval_crc_equiv(buf: &[u8]) -> Sigs {
+pub fn eval_crc_equiv(buf: &[u8]) -> Sigs {
     let class = refdec::class_of(buf);
     match decode(buf) {
         Decoded::Ok(f) => {
